@@ -705,6 +705,18 @@ where
         self.message_queue.len()
     }
 
+    /// Hand every job still waiting in this worker's queue to the discard handler with
+    /// [DiscardReason::Shutdown]. Called when the factory stops, mirroring what happens to
+    /// the factory's own queue, so that queued jobs do not vanish silently.
+    pub(crate) fn discard_queued_jobs_on_shutdown(&mut self) {
+        while let Some(mut job) = self.message_queue.pop_front() {
+            self.untrack_pending_key(&job.key);
+            if let Some(handler) = &self.discard_handler {
+                handler.discard(DiscardReason::Shutdown, &mut job);
+            }
+        }
+    }
+
     pub(crate) fn active_job_count(&self) -> usize {
         self.curr_jobs.len()
     }
